@@ -8,6 +8,8 @@ CONSTANTS
   LH = 3
   MaxArgsH = 2
   MaxSpare = 2
-  Kinds = {"args", "utr", "chain", "conv", "bare", "tr"}
+  LG = 2
+  MaxFeats = 2
+  Kinds = {"args", "utr", "chain", "conv", "bare", "tr", "gene"}
 INVARIANTS EmitCases
 CHECK_DEADLOCK FALSE
